@@ -11,12 +11,11 @@ import (
 	"go/token"
 	"go/types"
 	"os"
-	"reflect"
 	"strings"
 	"unsafe"
 
 	"golang.org/x/tools/go/ssa"
-	"golang.org/x/tools/internal/typeparams"
+	"verif/symgo/smt"
 )
 
 // If the target program panics, the interpreter panics with this type.
@@ -103,6 +102,9 @@ func fitsInt(x int64, sizes types.Sizes) bool {
 //
 // Callers that need a value directly usable as an int should combine this with fitsInt().
 func asInt64(x value) int64 {
+	if isSym(x) {
+		x = concretize(x)
+	}
 	switch x := x.(type) {
 	case int:
 		return int64(x)
@@ -133,6 +135,9 @@ func asInt64(x value) int64 {
 // asUint64 converts x, which must be an unsigned integer, to a uint64
 // suitable for use as a bitwise shift count.
 func asUint64(x value) uint64 {
+	if isSym(x) {
+		x = concretize(x)
+	}
 	switch x := x.(type) {
 	case uint:
 		return uint64(x)
@@ -153,6 +158,9 @@ func asUint64(x value) uint64 {
 // asUnsigned returns the value of x, which must be an integer type, as its equivalent unsigned type,
 // and returns true if x is non-negative.
 func asUnsigned(x value) (value, bool) {
+	if isSym(x) {
+		x = concretize(x)
+	}
 	switch x := x.(type) {
 	case int:
 		return uint(x), x >= 0
@@ -258,9 +266,6 @@ func zero(t types.Type) value {
 	case *types.Chan:
 		return chan value(nil)
 	case *types.Map:
-		if usesBuiltinMap(t.Key()) {
-			return map[value]value(nil)
-		}
 		return (*hashmap)(nil)
 	case *types.Signature:
 		return (*ssa.Function)(nil)
@@ -272,6 +277,8 @@ func zero(t types.Type) value {
 func slice(x, lo, hi, max value) value {
 	var Len, Cap int
 	switch x := x.(type) {
+	case sstring:
+		Len = len(x)
 	case string:
 		Len = len(x)
 	case []value:
@@ -299,6 +306,11 @@ func slice(x, lo, hi, max value) value {
 	}
 
 	switch x := x.(type) {
+	case sstring:
+		if l < 0 || h < l || h > int64(len(x)) {
+			panic(runtimeErr(fmt.Sprintf("slice bounds out of range [%d:%d] with length %d", l, h, len(x))))
+		}
+		return normString(x[l:h:h])
 	case string:
 		return x[l:h]
 	case []value:
@@ -313,16 +325,11 @@ func slice(x, lo, hi, max value) value {
 // lookup returns x[idx] where x is a map.
 func lookup(instr *ssa.Lookup, x, idx value) value {
 	switch x := x.(type) { // map or string
-	case map[value]value, *hashmap:
+	case *hashmap:
 		var v value
 		var ok bool
-		switch x := x.(type) {
-		case map[value]value:
-			v, ok = x[idx]
-		case *hashmap:
-			v = x.lookup(idx.(hashable))
-			ok = v != nil
-		}
+		v = x.lookup(idx)
+		ok = v != nil
 		if !ok {
 			v = zero(instr.X.Type().Underlying().(*types.Map).Elem())
 		}
@@ -338,6 +345,9 @@ func lookup(instr *ssa.Lookup, x, idx value) value {
 // numeric datatypes and strings.  Both operands must have identical
 // dynamic type.
 func binop(op token.Token, t types.Type, x, y value) value {
+	if isSymbolicOperand(x) || isSymbolicOperand(y) {
+		return symBinop(op, t, x, y)
+	}
 	switch op {
 	case token.ADD:
 		switch x.(type) {
@@ -734,9 +744,15 @@ func binop(op token.Token, t types.Type, x, y value) value {
 		}
 
 	case token.EQL:
+		if containsSym(x) || containsSym(y) {
+			return equalsV(t, x, y)
+		}
 		return eqnil(t, x, y)
 
 	case token.NEQ:
+		if containsSym(x) || containsSym(y) {
+			return symBool(smt.Not(truth(equalsV(t, x, y))))
+		}
 		return !eqnil(t, x, y)
 
 	case token.GTR:
@@ -818,8 +834,6 @@ func eqnil(t types.Type, x, y value) bool {
 		switch x := x.(type) {
 		case *hashmap:
 			return (x != nil) == (y.(*hashmap) != nil)
-		case map[value]value:
-			return (x != nil) == (y.(map[value]value) != nil)
 		case *ssa.Function:
 			switch y := y.(type) {
 			case *ssa.Function:
@@ -839,6 +853,9 @@ func eqnil(t types.Type, x, y value) bool {
 }
 
 func unop(instr *ssa.UnOp, x value) value {
+	if sx, ok := x.(*sym); ok {
+		return symUnop(instr.Op, sx)
+	}
 	switch instr.Op {
 	case token.ARROW: // receive
 		v, ok := <-x.(chan value)
@@ -883,7 +900,10 @@ func unop(instr *ssa.UnOp, x value) value {
 			return -x
 		}
 	case token.MUL:
-		return load(typeparams.MustDeref(instr.X.Type()), x.(*value))
+		if sp, ok := x.(*symptr); ok {
+			return sp.loadElem()
+		}
+		return load(mustDeref(instr.X.Type()), x.(*value))
 	case token.NOT:
 		return !x.(bool)
 	case token.XOR:
@@ -960,24 +980,30 @@ func callBuiltin(caller *frame, callpos token.Pos, fn *ssa.Builtin, args []value
 		if len(args) == 1 {
 			return args[0]
 		}
+		if s, ok := args[1].(sstring); ok {
+			return appendLogged(args[0].([]value), []value(s))
+		}
 		if s, ok := args[1].(string); ok {
 			// append([]byte, ...string) []byte
-			arg0 := args[0].([]value)
+			tmp := make([]value, len(s))
 			for i := 0; i < len(s); i++ {
-				arg0 = append(arg0, s[i])
+				tmp[i] = s[i]
 			}
-			return arg0
+			return appendLogged(args[0].([]value), tmp)
 		}
 		// append([]T, ...[]T) []T
-		return append(args[0].([]value), args[1].([]value)...)
+		return appendLogged(args[0].([]value), args[1].([]value))
 
 	case "copy": // copy([]T, []T) int or copy([]byte, string) int
 		src := args[1]
+		if ss, ok := src.(sstring); ok {
+			src = []value(ss)
+		}
 		if _, ok := src.(string); ok {
 			params := fn.Type().(*types.Signature).Params()
 			src = conv(params.At(0).Type(), params.At(1).Type(), src)
 		}
-		return copy(args[0].([]value), src.([]value))
+		return copyLogged(args[0].([]value), src.([]value))
 
 	case "close": // close(chan T)
 		close(args[0].(chan value))
@@ -985,10 +1011,8 @@ func callBuiltin(caller *frame, callpos token.Pos, fn *ssa.Builtin, args []value
 
 	case "delete": // delete(map[K]value, K)
 		switch m := args[0].(type) {
-		case map[value]value:
-			delete(m, args[1])
 		case *hashmap:
-			m.delete(args[1].(hashable))
+			m.delete(args[1])
 		default:
 			panic(fmt.Sprintf("illegal map type: %T", m))
 		}
@@ -1011,6 +1035,8 @@ func callBuiltin(caller *frame, callpos token.Pos, fn *ssa.Builtin, args []value
 
 	case "len":
 		switch x := args[0].(type) {
+		case sstring:
+			return len(x)
 		case string:
 			return len(x)
 		case array:
@@ -1018,8 +1044,6 @@ func callBuiltin(caller *frame, callpos token.Pos, fn *ssa.Builtin, args []value
 		case *value:
 			return len((*x).(array))
 		case []value:
-			return len(x)
-		case map[value]value:
 			return len(x)
 		case *hashmap:
 			return x.len()
@@ -1105,10 +1129,10 @@ func callBuiltin(caller *frame, callpos token.Pos, fn *ssa.Builtin, args []value
 
 func rangeIter(x value, t types.Type) iter {
 	switch x := x.(type) {
-	case map[value]value:
-		return &mapIter{iter: reflect.ValueOf(x).MapRange()}
 	case *hashmap:
-		return &hashmapIter{iter: reflect.ValueOf(x.entries()).MapRange()}
+		return &hashmapIter{m: x}
+	case sstring:
+		return newSStringIter(x)
 	case string:
 		return &stringIter{Reader: strings.NewReader(x)}
 	}
@@ -1158,6 +1182,12 @@ func widen(x value) value {
 func conv(t_dst, t_src types.Type, x value) value {
 	ut_src := t_src.Underlying()
 	ut_dst := t_dst.Underlying()
+	if sx, ok := x.(*sym); ok {
+		return symConv(t_dst, sx)
+	}
+	if r, ok := symConvAggregate(ut_dst, ut_src, x); ok {
+		return r
+	}
 
 	// Destination type is not an "untyped" type.
 	if b, ok := ut_dst.(*types.Basic); ok && b.Info()&types.IsUntyped != 0 {
